@@ -330,13 +330,15 @@ func tickerGen(c *Ctx) (genField string, callback *ssa.Function) {
 		return "", nil
 	}
 	var cb *ssa.Function
-	instrs(sch, func(b *ssa.BasicBlock, i int, in ssa.Instruction) {
-		if call, ok := in.(*ssa.Call); ok && isCallTo(&call.Call, "time", "", "AfterFunc") && len(call.Call.Args) == 2 {
-			if f, _ := funcAndReceiver(call.Call.Args[1]); f != nil {
+	armChain = nil
+	for _, di := range deepInstrs(sch, 2) { // the timer may be armed by a helper of schedule (t.arm(next, t.gen))
+		if call, ok := di.in.(*ssa.Call); ok && isCallTo(&call.Call, "time", "", "AfterFunc") && len(call.Call.Args) == 2 {
+			if f, _ := funcAndReceiver(argOf(call.Call.Args[1], di.calls)); f != nil {
 				cb = f
+				armChain = di.calls
 			}
 		}
-	})
+	}
 	if cb == nil {
 		return "", nil
 	}
@@ -369,6 +371,10 @@ func tickerIntField(v ssa.Value) string {
 
 // capturedInSchedule: v (seen through the call chain) is a value that lives in schedule (a captured local / a value computed
 // there), not something read by the callback itself.
+// armChain: the calls that lead from schedule to the frame in which the timer is armed (empty when schedule arms it itself);
+// set by tickerGen.
+var armChain []*ssa.Call
+
 func capturedInSchedule(v ssa.Value, chain []*ssa.Call, sch *ssa.Function) bool {
 	_, ok := capturedValue(v, chain, sch)
 	return ok
@@ -396,13 +402,41 @@ func capturedValue(v ssa.Value, chain []*ssa.Call, sch *ssa.Function) (ssa.Value
 				break
 			}
 			if !mapped {
+				// a parameter of the arming helper: what schedule passed for it
+				for i := len(armChain) - 1; i >= 0 && !mapped; i-- {
+					cal := staticCallee(&armChain[i].Call)
+					if cal == nil || origin(x.Parent()) != origin(cal) {
+						continue
+					}
+					for k, p := range x.Parent().Params {
+						if p == x && k < len(armChain[i].Call.Args) {
+							v = armChain[i].Call.Args[k]
+							mapped = true
+						}
+					}
+				}
+			}
+			if !mapped {
 				return nil, false
 			}
 			continue
 		case *ssa.UnOp:
 			if x.Op == token.MUL {
-				if cell := cellOf(x.X); cell != nil && cell.Parent() == sch {
-					return cell, true
+				if cell := cellOf(x.X); cell != nil {
+					if cell.Parent() == sch {
+						return cell, true
+					}
+					// the spill of a parameter of the arming helper (captured by the callback): the parameter
+					if sts := storesTo(cell); len(sts) == 1 && len(armChain) > 0 {
+						if prm, ok := sts[0].Val.(*ssa.Parameter); ok && prm.Parent() == cell.Parent() {
+							v = prm
+							continue
+						}
+					}
+					return nil, false
+				}
+				if x.Parent() == sch {
+					return x, true // read in schedule itself (t.arm(next, t.gen))
 				}
 			}
 			return nil, false
@@ -748,7 +782,7 @@ func ruleValidationSiblings(c *Ctx, r *R) {
 			}
 		case *ssa.Call:
 			if cal := x.Call.StaticCallee(); cal != nil && fname(cal) == "AfterFunc" {
-				if dependsOnField(x.Call.Args[0], "d", 0) && dependsOnField(x.Call.Args[0], "jitter", 0) {
+				if a0 := argOf(x.Call.Args[0], di.calls); dependsOnField(a0, "d", 0) && dependsOnField(a0, "jitter", 0) {
 					usesD = true
 				}
 			}
